@@ -260,17 +260,80 @@ func otherVersion(v string) string {
 	return "3.1.0"
 }
 
-func defaultGlobs(pc *pCase) []string {
+func ctrlPkgs(pc *pCase) []string {
 	pk := map[string]bool{}
 	for _, c := range pc.Ctrls {
 		pk[c.Pkg] = true
 	}
 	out := []string{}
 	for p := range pk {
-		out = append(out, "./"+p+"/*.go")
+		out = append(out, "./"+p)
 	}
 	sort.Strings(out)
 	return out
+}
+
+// defaultGlobs: every file of every controller package - unless the project has "outside" controllers (files no glob matches):
+// then exactly the files that hold the other controllers and their methods.
+func defaultGlobs(pc *pCase) []string {
+	outside := map[string]bool{}
+	for _, c := range pc.Ctrls {
+		if c.Outside {
+			outside[c.ID] = true
+		}
+	}
+	out := []string{}
+	if len(outside) == 0 {
+		for _, p := range ctrlPkgs(pc) {
+			out = append(out, p+"/*.go")
+		}
+		return out
+	}
+	seen := map[string]bool{}
+	add := func(pkg, file string) {
+		g := "./" + pkg + "/" + file + ".go"
+		if !seen[g] {
+			seen[g] = true
+			out = append(out, g)
+		}
+	}
+	pkgOf := map[string]string{}
+	for _, c := range pc.Ctrls {
+		pkgOf[c.ID] = c.Pkg
+		if !c.Outside {
+			add(c.Pkg, c.File)
+		}
+	}
+	for _, m := range pc.Methods {
+		if !outside[m.Ctrl] {
+			add(pkgOf[m.Ctrl], m.File)
+		}
+	}
+	sort.Strings(out)
+	return out
+}
+
+// scopedCase drops what the globs do not match: the judges compare gleece's output with the matched part of the project.
+func scopedCase(pc *pCase) {
+	outside := map[string]bool{}
+	ctrls := []pCtrl{}
+	for _, c := range pc.Ctrls {
+		if c.Outside {
+			outside[c.ID] = true
+		} else {
+			ctrls = append(ctrls, c)
+		}
+	}
+	if len(outside) == 0 {
+		return
+	}
+	methods := pc.Methods[:0:0]
+	for _, m := range pc.Methods {
+		if !outside[m.Ctrl] {
+			methods = append(methods, m)
+		}
+	}
+	pc.Ctrls, pc.Methods = ctrls, methods
 }
 
 // materialize writes project, configs and stale outputs for a case.
@@ -350,9 +413,7 @@ func (r *runner) runCase(work string, pc *pCase, plan pipePlan, keep bool) *case
 	}
 	prebuild := func() {
 		pk := []string{}
-		for _, g := range defaultGlobs(pc) {
-			pk = append(pk, strings.TrimSuffix(g, "/*.go"))
-		}
+		pk = append(pk, ctrlPkgs(pc)...)
 		pkT := map[string]bool{}
 		for _, t := range pc.Types {
 			pkT["./"+t.Pkg] = true
